@@ -71,7 +71,7 @@ let parse_snap t : (string * string) list =
     | None -> (e, "")) (String.split_on_char ';' body)
 
 (* the property on one data set: durable log, verdict per prefix, (completion position, id hex, snapshot) per flush *)
-let spec_check (log : dop list) (verdicts : string list) (flushes : (int * string * (string * string) list) list) =
+let spec_check ?(any_pos = false) (log : dop list) (verdicts : string list) (flushes : (int * string * (string * string) list) list) =
   let why = ref "" in
   let ok = ref true in
   let fail s = if !ok then (ok := false; why := s) in
@@ -86,7 +86,7 @@ let spec_check (log : dop list) (verdicts : string list) (flushes : (int * strin
       end else if String.length v > 2 && String.sub v 0 2 = "O:" then begin
         let m = String.sub v 2 (String.length v - 2) in
         let matches (pos, id, snap) =
-          pos <= k && m = "00" ^ (if id = "-" then "" else id) &&
+          (any_pos || pos <= k) && m = "00" ^ (if id = "-" then "" else id) &&
           List.for_all (fun (n, d) -> match List.assoc_opt n snap with
             | Some s -> s = d
             | None -> d = "") dbs in
@@ -101,7 +101,7 @@ let eval inp obs =
   let groups = split_on ";" inp in
   let header, ops = (match groups with hd :: tl -> hd, tl | [] -> failwith "empty") in
   let mode, fk, scale = (match header with
-    | [m; fk; sc] -> m, bytes_of_hex fk, n_of_tok sc | _ -> failwith "bad header") in
+    | m :: fk :: sc :: _ -> m, bytes_of_hex fk, n_of_tok sc | _ -> failwith "bad header") in
   let og = split_on ";" obs in
   let sect name = (match List.find_opt (fun g -> match g with x :: _ -> x = name | [] -> false) og with
     | Some (_ :: t) -> t | _ -> []) in
@@ -139,6 +139,10 @@ let eval inp obs =
       Some (HFlush (bytes_of_hex id, os))
     | _ -> None) in
   let flush_ids = List.filter_map (fun o -> match o with ["F"; id] -> Some id | _ -> None) ops in
+  (* flagged producer with two equal consecutive flush IDs: the reported flush may be the one in
+     progress (theorem C25_flagged_crash_consistent_any_ids); otherwise it completed at or before k *)
+  let rec consec_distinct = function a :: (b :: _ as t) -> a <> b && consec_distinct t | _ -> true in
+  let any_pos = (mode = "flag") && not (consec_distinct flush_ids) in
   let mlog, mrecs =
     if mode = "pool" then begin
       let st = ref run_init in
@@ -194,13 +198,13 @@ let eval inp obs =
       false, "number of completed flushes / snapshots differs from the number of F operations"
     else begin
       let flushes = List.mapi (fun i p -> (p, List.nth flush_ids i, parse_snap (List.nth isnaps i))) pos in
-      spec_check ilog_d iverd flushes
+      spec_check ~any_pos ilog_d iverd flushes
     end
   with e -> false, "unparsable observation: " ^ Printexc.to_string e) in
   let m_ok, m_why =
     let flushes = List.mapi (fun i r -> (int_of_nat r.r_pos, (if r.r_id = [] then "-" else h r.r_id),
                                          parse_snap (List.nth msnaps i))) mrecs in
-    spec_check mlog mverd_sorted flushes in
+    spec_check ~any_pos mlog mverd_sorted flushes in
   let has p = List.exists p iverd in
   { default_verdict with model_obs; spec_ok = Some spec_ok; model_spec_ok = m_ok;
     nontrivial = has (fun v -> String.length v > 1 && v.[0] = 'O') && has (fun v -> v.[0] = 'E');
